@@ -9,6 +9,15 @@ import (
 
 func writeEvidence(b builds, cfg tierCfg, oi oracleInfo, agg *simAgg, eq, cmp int, st *selfTestResult, mt *modelTestResult, final *proto.Record, replayPath string) {
 	wall := time.Since(tStart).Seconds()
+	// the instrumented reference pass executes every corpus call: its sites count as reached
+	if len(agg.siteBits) < len(oi.siteBits) {
+		nb := make([]uint8, len(oi.siteBits))
+		copy(nb, agg.siteBits)
+		agg.siteBits = nb
+	}
+	for i, v := range oi.siteBits {
+		agg.siteBits[i] |= v & 1
+	}
 	reached, preempted := 0, 0
 	for _, v := range agg.siteBits {
 		if v&1 != 0 {
@@ -16,6 +25,12 @@ func writeEvidence(b builds, cfg tierCfg, oi oracleInfo, agg *simAgg, eq, cmp in
 		}
 		if v&2 != 0 {
 			preempted++
+		}
+	}
+	var unreached []string
+	for _, st := range b.rep.Sites {
+		if st.ID < len(agg.siteBits) && agg.siteBits[st.ID]&1 == 0 && len(agg.siteBits) > 0 {
+			unreached = append(unreached, st.File+" "+st.Func)
 		}
 	}
 	var samples []any
@@ -66,6 +81,7 @@ func writeEvidence(b builds, cfg tierCfg, oi oracleInfo, agg *simAgg, eq, cmp in
 		"yield_sites_total":            len(b.rep.Sites),
 		"yield_sites_reached":          reached,
 		"yield_sites_preempted_at":     preempted,
+		"yield_sites_never_reached":    unreached,
 		"shared_sites":                 b.rep.NShared,
 		"api_sites":                    b.rep.NAPI,
 		"package_level_vars":           len(b.rep.PkgVars),
